@@ -197,7 +197,9 @@ func (g *c15Gen) text() c15Text {
 		if g.pct(65) || (i == n-1 && !havePragma && g.pct(80)) {
 			p := g.pragma()
 			havePragma = true
-			if i > 0 {
+			if bait {
+				p.Vectors = append([]string{"lexical-bait"}, p.Vectors...)
+			} else if i > 0 {
 				p.Vectors = append([]string{"later-statement"}, p.Vectors...)
 			} else if strings.ContainsAny(lead, "/-") {
 				p.Vectors = append([]string{"leading-comment"}, p.Vectors...)
@@ -208,11 +210,18 @@ func (g *c15Gen) text() c15Text {
 			}
 			sb.WriteString(p.Text)
 			t.Pragmas = append(t.Pragmas, p)
+		} else if g.pct(45) {
+			// lexically tricky statement: the guard must tokenise exactly like SQLite, or what follows
+			// (a later PRAGMA) hides inside what the guard believes is a literal, identifier or comment
+			sb.WriteString(c15Bait[g.n(len(c15Bait))])
+			bait = true
 		} else {
 			sb.WriteString(c15Filler[g.n(len(c15Filler))])
 		}
 	}
-	sb.WriteString(g.of("", "", ";", " ", "; -- c"))
+	// what follows the last statement: may contain the quote / bracket / comment end that "closes"
+	// a construct a diverging tokenizer believes is still open
+	sb.WriteString(g.of("", "", ";", " ", "; -- c", "; --'", " --'", "; /* ' */", "; SELECT ''", ";--\"", "; /* ] */", " -- `", "; SELECT '", "; /* open", ";--*/", "; SELECT 1 AS \"x"))
 	t.SQL = sb.String()
 	return t
 }
